@@ -52,6 +52,21 @@ static void expand(void)
     static const int n3s[] = {0, 1, 32, 33};
     int w = tier ? 70 : 40;
     const char *kv = A ? "hkdfa:expand" : "hkdf:expand";
+    /* chained extraction on one object: the pseudorandom key of the previous extraction, read from the object itself, is the salt (or the key) of the next one */
+    for (int role = 0; role < 2; role++) for (size_t kl2 = 0; kl2 <= 40; kl2 += (kl2 < 34 ? 1 : 3)) for (int used = 0; used < 2; used++) {
+        union { ascon_hkdf_state_t h; ascon_hkdfa_state_t ha; } st; uint8_t prk1[32], prk2[32], exp[70], got[70];
+        ref_hkdf_extract(A, key, 33, salt, 9, prk1);
+        if (role == 0) ref_hkdf_extract(A, key, kl2, prk1, 32, prk2); else ref_hkdf_extract(A, prk1, 32, salt, kl2, prk2);
+        ref_hkdf_stream(A, prk2, info, il, exp, 70);
+        if (A) { ascon_hkdfa_extract(&st.ha, key, 33, salt, 9); if (used) ascon_hkdfa_expand(&st.ha, info, 3, got, 33);
+                 if (role == 0) ascon_hkdfa_extract(&st.ha, key, kl2, st.ha.prk, 32); else ascon_hkdfa_extract(&st.ha, st.ha.prk, 32, salt, kl2);
+                 ascon_hkdfa_expand(&st.ha, info, il, got, 70); ascon_hkdfa_free(&st.ha); }
+        else   { ascon_hkdf_extract(&st.h, key, 33, salt, 9); if (used) ascon_hkdf_expand(&st.h, info, 3, got, 33);
+                 if (role == 0) ascon_hkdf_extract(&st.h, key, kl2, st.h.prk, 32); else ascon_hkdf_extract(&st.h, st.h.prk, 32, salt, kl2);
+                 ascon_hkdf_expand(&st.h, info, il, got, 70); ascon_hkdf_free(&st.h); }
+        hx_stat("evaluations", 1); hx_stat("histories", 1);
+        if (memcmp(got, exp, 70)) hx_fail(A ? "hkdfa:extract-chain" : "hkdf:extract-chain", "second extraction with the object's own pseudorandom key as the %s (other input %zu bytes, object %s): output differs from RFC 5869", role ? "input key" : "salt", kl2, used ? "partly expanded" : "fresh");
+    }
     for (int n1 = LIMIT - w; n1 <= LIMIT + 1; n1++) for (int n2 = 0; n2 <= w + 2; n2++) for (int n3i = 0; n3i < 4; n3i++) {
         if (n1 < LIMIT - 34 && n2 > 2 && (n1 + n2 < LIMIT - 1)) continue; /* far from the limit: covered by the small-history pass below */
         size_t req[3] = {(size_t)n1, (size_t)n2, (size_t)n3s[n3i]};
